@@ -1,12 +1,12 @@
 """C09 — response data is well-formed and denotes exactly the value that was formatted."""
-import re
+import re, random
 from fractions import Fraction as Fr
 from common import *
 import numlib, pyfmt
 
 PID = "C09"
 TARGETS = ["Run.vo", "Fmt_proofs.vo"]
-IMPORTS = "From VF Require Import Base Show Gen_Errors Lexer Response Conv Run."
+IMPORTS = "From VF Require Import Base Show Gen_Errors Lexer Response Conv Enum Run."
 ALLOWED_AXIOMS = []
 PROFILES = ["debug", "release"]
 RULE = ("integers: ALL i8/u8 values and a boundary-directed + random sample of 16/32/64-bit and pointer-size values in decimal; "
@@ -16,7 +16,8 @@ RULE = ("integers: ALL i8/u8 values and a boundary-directed + random sample of 1
         "powers of two and ten, 9/17-digit cases, MAX, NaN and infinities, random bit patterns.  Each emitted text is (1) compared "
         "with the model (non-float kinds), (2) decoded by an independent decoder in Python and compared with the value, (3) sent "
         "back through the library's own parser (round trip; strings denote the value after un-doubling quotes), floats also "
-        "through Rust's str::parse.  non-trivial = text longer than one byte")
+        "through Rust's str::parse; derived enums (~30 definitions generated from the seed and compiled into the harness): every "
+        "variant's response text is sent back through TryFrom<Token> and must select the same variant.  non-trivial = text longer than one byte")
 ASSUMPTIONS = ["lexical-core 0.8.5 write::<f32|f64> is not modelled: every emitted float text is validated per value (syntax, exact decode = same bits)",
                "a string containing `\"` round-trips through the zero-copy parser with the quotes still doubled (DESIGN 7.2)"]
 MISMATCH_WHY = "emitted response text / round trip differs from the proved model (C09)"
@@ -27,6 +28,13 @@ CTY = {"i8": "CInt I8", "u8": "CInt U8", "i16": "CInt I16", "u16": "CInt U16", "
 
 def mk(item):
     return {"line": "fmt " + item, "item": item}
+
+
+# derived enums: the definitions are generated from the seed and compiled into the harness (C20's machinery); every
+# variant's response text must select the same variant when sent back
+import C20
+def pre_build(rng, tier): C20.pre_build(random.Random(rng.random()), tier)
+def enum_cases(): return [{"line": "enumv %d %s" % (k, C20.defspec(vs)), "item": "enum:"} for k, vs in enumerate(C20._enums)]
 
 
 def corpus():
@@ -81,7 +89,7 @@ def generate(rng, tier):
         for b in list(bits):
             out.append(mk("%s:%0*x" % (ty, w, b)))
             out.append(mk("%s:%0*x" % (ty, w, b | (1 << (eb + mb)))))      # negative twin
-    return out
+    return out + enum_cases()
 
 
 def to_bits(v, ty):
@@ -93,7 +101,7 @@ def to_bits(v, ty):
 
 
 def harness_line(c): return c["line"]
-def case_of_line(l): return mk(l.split(" ", 1)[1])
+def case_of_line(l): return {"line": l, "item": "enum:"} if l.startswith("enumv ") else mk(l.split(" ", 1)[1])
 
 
 def coq_item(item):
@@ -114,6 +122,7 @@ def coq_item(item):
 
 
 def coq_term(c):
+    if c["line"].startswith("enumv "): return C20.coq_term(c)
     d, back = coq_item(c["item"])
     if d is None: return '"SKIP"'
     return "run_fmt %s %s" % (d, "None" if back is None else "(Some (%s))" % back)
@@ -176,6 +185,7 @@ def decode_check(item, text):
 def impl_oracle(c, r):
     if r is None: return "no result from harness"
     if r.startswith(("PANIC", "CRASH", "NOT-RUN", "HANG")): return "formatting panicked / died: " + r[:100]
+    if c["line"].startswith("enumv "): return C20.impl_oracle(c, r)
     f = r.split(" ")
     item = c["item"]; k, v = item.split(":", 1)
     if f[0].startswith("E"):
